@@ -130,6 +130,20 @@ func TestReplay(t *testing.T) {
 	hdr = h0
 	needCreate := hdr.Precreated
 
+	// optional second TLC output: the same behaviours judged by the AS-CODED variant of the
+	// specification (known findings): a divergence from the reference that the as-coded variant
+	// predicts exactly is marked as explained
+	asis := map[string]*Behaviour{}
+	if ap := os.Getenv("VERIF_ASIS_OUT"); ap != "" {
+		_, _, aerr := ReadTLC(ap, 1, 0, func(_ int, ab *Behaviour) error {
+			asis[stepsKey(ab.Steps)] = ab
+			return nil
+		})
+		if aerr != nil {
+			t.Fatal(aerr)
+		}
+	}
+
 	_, total, err := ReadTLC(in, stride, offset, func(idx int, b *Behaviour) error {
 		sum.Behaviours++
 		for ti, tb := range tables {
@@ -156,6 +170,15 @@ func TestReplay(t *testing.T) {
 				}
 				if rerr == nil {
 					rerr = s.Run(b)
+				}
+				if rerr == nil && len(s.Divs) > 0 {
+					if ab, ok := asis[stepsKey(b.Steps)]; ok {
+						if explainedByAsIs(s, ab) {
+							for i := range s.Divs {
+								s.Divs[i].Note = "asis:" + s.Divs[i].Note
+							}
+						}
+					}
 				}
 				sum.Replays++
 				sum.Checks += s.Checks
@@ -197,4 +220,46 @@ func TestReplay(t *testing.T) {
 	_ = total
 	sum.WallSeconds = time.Since(start).Seconds()
 	_ = enc.Encode(sum)
+}
+
+// stepsKey identifies a behaviour by its actions and arguments only (not by required answers).
+func stepsKey(steps []Step) string {
+	cp := make([]Step, len(steps))
+	copy(cp, steps)
+	for i := range cp {
+		cp[i].X = nil
+		cp[i].Page = nil
+		cp[i].Obs = nil
+		cp[i].Calls, cp[i].Outcome, cp[i].Tok, cp[i].Processed = nil, "", nil, 0
+	}
+	return stepsJSON(cp)
+}
+
+// explainedByAsIs re-judges a finished session against the as-coded variant of the specification:
+// every step answer and every read-API answer must be exactly what that variant requires.
+func explainedByAsIs(s *Session, ab *Behaviour) bool {
+	k := 0
+	for i := range ab.Steps {
+		st := &ab.Steps[i]
+		switch st.A {
+		case "http", "expire", "jobstart", "jobbatch", "jobend":
+			if k >= len(s.Answers) {
+				return false
+			}
+			if ok, _, _ := compareAnswer(st, st.X, s.Answers[k].Ans); !ok {
+				return false
+			}
+			k++
+		}
+	}
+	saved, savedClock := s.Divs, s.clock
+	s.Divs = nil
+	s.clock = ab.Obs.Clock
+	for len(s.after) <= s.clock {
+		s.after = append(s.after, spinUntilAfter(s.after[len(s.after)-1]))
+	}
+	err := s.CheckObs(&ab.Obs)
+	explained := err == nil && len(s.Divs) == 0
+	s.Divs, s.clock = saved, savedClock
+	return explained
 }
